@@ -31,6 +31,7 @@ CONSTANTS
   Labels,       \* item labels (set of Seq(Char)); the empty sequence = no label
   UserSkipG,    \* skip_envs option of the run
   ExtraQueries, \* further names to search for (e.g. names that occur only inside comments / verbatim bodies)
+  DollarAdjacent, \* BOOLEAN: switch guard G5 off ("$a$" directly followed by "$": the known finding C12-adjacent-dollar)
   Budget, MaxDepth, MaxSib, MaxArgs
 
 VARIABLES gstack, gn, ast
@@ -133,7 +134,7 @@ CanFollow(fr, new) ==
      /\ ~(fr.ck = "arg" /\ fr.kind = "[" /\ HasTopBracketClose(new))                              \* G3
      /\ ~(IsTextNode(prev) /\ IsTextNode(new) /\ its # <<>>)                                      \* G8
      /\ ~(prev.k = "text" /\ prev.kind = "Com" /\ ~(IsTextNode(new) /\ nf \in {"\n", "\r"}))         \* G4 (a line break: LF or CR)
-     /\ ~(prev.k = "math" /\ prev.kind = "$" /\ nf = "$")                                         \* G5: "$a$$..." is ambiguous; "$$a$$$b$" is not (longest match)
+     /\ (DollarAdjacent \/ ~(prev.k = "math" /\ prev.kind = "$" /\ nf = "$"))                                         \* G5: "$a$$..." is ambiguous; "$$a$$$b$" is not (longest match)
      /\ ~(IsTextNode(prev) /\ LoneBackslashEnd(prev.s))                                          \* a text run never ends in a lone backslash
      /\ ~(BareSizePrefix(prev) /\ nf \in DelimFirst)                                             \* G12
 
